@@ -31,6 +31,7 @@ func (c zzCommands) Command(name string) app.TerminalCommand { return c.m[name] 
 // order, and stop at the first failing command.
 func ZZVerifC14Body() {
 	nd.Schedule(nd.Param("P", 1))
+	nd.Races()
 	n := nd.Param("N", 3)
 	failAt := nd.IntRange("fail-at", -1, n-1)
 	var mu sync.Mutex
